@@ -282,6 +282,52 @@ func c12(c *ctx) {
 		p0.Close()
 		w.close()
 	}
+	// ---- a peer Heartbeat Request that arrives WHILE one of the agent's own heartbeats is outstanding (first transmission lost, the
+	// retransmission answered a little later) postpones the agent's next heartbeat like any other
+	for rep := 0; rep < c.pick(1, 4); rep++ {
+		iv, rt := 800*time.Millisecond, 200*time.Millisecond
+		w, err := newWorld(c, sysh.Opts{HB: true, HBInterval: iv.String(), RespTimeout: rt.String(), MaxRetries: 3, ReadTimeout: 600})
+		if err != nil {
+			panic(err)
+		}
+		w.cfgLine()
+		if !w.start() {
+			w.close()
+			return
+		}
+		w.assoc(0)
+		p := w.peers[0]
+		p.AnswerHB = false
+		start := time.Now()
+		var firstSeq uint32
+		var tPeer time.Duration
+		tx := watchHB(p, 3*iv+4*rt, start, func(n int, seq uint32) []message.Message {
+			if firstSeq == 0 {
+				firstSeq = seq
+			}
+			if seq != firstSeq {
+				return []message.Message{hbResp(seq)}
+			}
+			if n == 2 {
+				time.Sleep(100 * time.Millisecond)
+				tPeer = time.Since(start)
+				_ = p.SendRaw(sysh.Marshal(message.NewHeartbeatRequest(p.NextSeq(), ie.NewRecoveryTimeStamp(time.Unix(1700000000, 0)), nil)))
+				time.Sleep(20 * time.Millisecond)
+				return []message.Message{hbResp(seq)}
+			}
+			return nil
+		}, func(tx []txRec) bool { return len(tx) > 0 && tx[len(tx)-1].seq != firstSeq })
+		gap := int64(-1)
+		for _, t := range tx {
+			if t.seq != firstSeq && tPeer > 0 {
+				gap = (t.at - tPeer).Microseconds()
+				break
+			}
+		}
+		w.emit("peerhb-outstanding", true, map[string]interface{}{"k": "peerhbout", "a": 0, "iv_us": iv.Microseconds(),
+			"obs": map[string]interface{}{"alive": !w.s.Exited(), "tx": txJSON(tx), "gap_us": gap, "peer_sent": tPeer > 0}})
+		w.close()
+	}
 	// ---- association setup: accepted iff the datapath is connected; advertised features follow the configuration
 	for _, cf := range []struct{ ueip, em bool }{{false, false}, {true, false}, {false, true}, {true, true}} {
 		w, err := newWorld(c, sysh.Opts{UEAlloc: cf.ueip, Pool: "10.250.0.0/24", EndMarker: cf.em, ReadTimeout: 600})
